@@ -28,19 +28,21 @@ from tables.c09 import canon, jtext
 META = {
     'level_text': 'Theorems about an explicit object-heap model of HasAccessibles.__init_subclass__ / Module.__init__ / datatype '
                   'mutation (FrappyModel/Klass): frame (every operation leaves every existing object alone that is not reachable from '
-                  'its target), isolated (description and validation behaviour of every non-target owner unchanged, one step, under the '
-                  'invariants Bounded and Separated), class_description_stable and later_instances_fresh (over runs whose intermediate '
-                  'worlds satisfy the invariants).  PARTIAL: preservation of the invariants is proved for instantiation only '
-                  '(separated_preserved_partial), order independence only at value level for an unrelated earlier class '
-                  '(order_independent_partial); the full statements are kept as separated_preserved_statement / '
-                  'order_independent_statement.  Tied to the code by a correspondence run (every dump and the id()-sharing partition '
-                  'after every operation of generated programs) and by Lean monitors judging every implementation trace (isolation, '
-                  'order independence, later instances).',
+                  'its target), separated_preserved (every admissible operation - class definition, instantiation, setProperty, enum '
+                  'replacement - keeps: no object reachable from an instance is reachable from another owner), isolated / '
+                  'isolated_reachable (description and validation behaviour of every non-target owner unchanged, after any admissible '
+                  'program), class_description_stable, later_instances_fresh (all for every admissible run).  PARTIAL: '
+                  'order_independent_partial - the value a class is laid out from (ClassRec.pure) equals pureOf(env), a function of '
+                  'the class bodies along its MRO only, for every program whose definition order is consistent with inheritance; '
+                  'that describeH shows exactly this value (faithfulness of the heap layout) is not proved '
+                  '(order_independent_statement).  Tied to the code by a correspondence run (every dump and the id()-sharing '
+                  'partition after every operation of generated programs) and by Lean monitors judging every implementation trace '
+                  '(isolation incl. write_<p>/command-call behaviour, order independence, later instances, writes follow the own datatype).',
     'level_note': 'Trusted: Lean kernel + axioms propext/Classical.choice/Quot.sound; Python C3 linearisation is an input (the real '
                   '__mro__ is passed to the model); validation behaviour is taken to be a function of the exported datainfo '
                   '(monitored on every run); whether an operation fails is taken from the implementation (the model skips failed '
-                  'operations, the judge demands they change nothing); faithfulness of the heap layout and invariant preservation by '
-                  'class definition / mutation are tested by the correspondence run, not proved.',
+                  'operations, the judge demands they change nothing); faithfulness of the heap layout w.r.t. the value-level result '
+                  'is tested by the correspondence run, not proved; write/call outcomes are judged, not predicted by the model.',
     'trusted': [
         "Python's C3 linearisation (the real __mro__ of every generated class is passed to the model as data)",
         'validation behaviour of a datatype object is a function of its exported datainfo (checked by the monitor valFunctionalB on every run)',
@@ -49,13 +51,16 @@ META = {
     'modelled_not_verified': [
         'module-level properties (group, visibility, ...): dumped and judged, not predicted by the model',
         'read_/write_/check_ wrapper generation in __init_subclass__',
-        'Limit parameters, StructOf/TupleOf declared by generated classes (TupleOf/StatusType appear through frappy.modules only)',
+        'Limit parameters, TupleOf declared by generated classes (TupleOf/StatusType appear through frappy.modules only); StructOf only as command argument',
+        'outcomes of write_<p>(v) through the generated wrapper and of Command.do(): dumped, judged (isolation, order, writesOwn), not predicted',
     ],
     'assumptions': ['declared datatype objects are not shared between two declarations of the generated program'],
 }
 
 CATALOGUE = [0, 1, -1, 2, 3, 4, 5, 6, 7, 9, 10, 11, 20, 50, 100, 101, 2.5, 1e9, -1e9, 'a', 'abcde', 'x' * 12, True, None,
              [1, 2], [1, 2, 3, 4, 5], [], 'self', 'm1', 'IDLE', [100, ''], [300, 'x']]
+WRITE_CATALOGUE = [0, 1, -1, 3, 4, 5, 7, 9, 10, 11, 20, 50, 100, 101, 'a', 'abcde', True, None, [1, 2]]
+ARG_CATALOGUE = [None, {}, {'a': 1}, {'b': 2}, {'a': 1, 'b': 2}, {'a': 1, 'b': 2, 'c': 3}, {'c': 3}, 1, 'x']
 ROOTS = ['Module', 'Readable', 'Writable', 'Drivable']
 
 
@@ -78,7 +83,22 @@ def mk_dt(spec):
         return D.EnumType('', members=dict(spec['members']))
     if t == 'array':
         return D.ArrayOf(mk_dt(spec['child']), props.get('minlen', 0), props.get('maxlen'))
+    if t == 'struct':
+        return D.StructOf(**{k: mk_dt(v) for k, v in spec['members'].items()})
     raise ValueError(t)
+
+
+def mk_func(sig):
+    """a method `(self, <names>)` where the names listed in sig['defaults'] have default values"""
+    if not sig:
+        def func(self, *args):
+            return None
+        func.__doc__ = None
+        return func
+    args = ', '.join([n for n in sig['names'] if n not in sig['defaults']] + [n + '=1' for n in sig['names'] if n in sig['defaults']])
+    ns = {}
+    exec(f'def func(self, {args}):\n    return None\n', ns)     # pylint: disable=exec-used
+    return ns['func']
 
 
 def mk_decl(decl):
@@ -102,16 +122,9 @@ def mk_decl(decl):
         if not decl.get('inherit', True):
             kw['inherit'] = False
         arg = mk_dt(decl['arg']) if decl.get('arg') is not None else None
-
-        def func(self, *args):
-            return None
-        func.__doc__ = None
-        return Command(arg, result=None, **kw)(func)
+        return Command(arg, result=None, **kw)(mk_func(decl.get('sig')))
     if k == 'method':
-        def meth(self, *args):
-            return None
-        meth.__doc__ = None
-        return meth
+        return mk_func(decl.get('sig'))
     raise ValueError(k)
 
 
@@ -175,15 +188,28 @@ def dt_objects(dt, path, acc):
         for i, m in enumerate(dt.members):
             dt_objects(m, path + '/%d' % i, acc)
     elif isinstance(dt, D.StructOf):
-        for k in sorted(dt.members):
-            dt_objects(dt.members[k], path + '/' + k, acc)
+        for i, k in enumerate(sorted(dt.members)):
+            dt_objects(dt.members[k], path + '/%d' % i, acc)
 
 
-def dump_accessible(aobj, objs, aname):
+def outcome(f, *args):
+    import copy
+    try:
+        return ['ok', canon(f(*copy.deepcopy(args[-1:])) if len(args) == 1 else f(*args[:-1], copy.deepcopy(args[-1])))]
+    except Exception as e:  # the class of the error is the observation
+        return [type(e).__name__]
+
+
+def dump_accessible(aobj, objs, aname, modobj=None):
     from frappy.params import Parameter
-    from frappy.datatypes import CommandType
     isparam = isinstance(aobj, Parameter)
     d = {'cmd': not isparam}
+    if modobj is not None and isparam:
+        # behaviour of the instance: what write_<p>(v) does, through the generated wrapper (before anything else is looked
+        # at: the probe leaves the last accepted value in the parameter, in every dump alike)
+        wfunc = getattr(modobj, 'write_' + aname, None)
+        d['writes'] = [outcome(lambda v: aobj.datatype.export_value(wfunc(v)), v) for v in WRITE_CATALOGUE] if wfunc else None
+        d['validates'] = [outcome(lambda v: aobj.datatype.export_value(aobj.datatype.validate(v)), v) for v in WRITE_CATALOGUE]
     props = {}
     for pn, po in aobj.propertyDict.items():       # what exportProperties() does, the datatype apart
         if pn == 'datatype' or not po.export:
@@ -207,6 +233,11 @@ def dump_accessible(aobj, objs, aname):
     else:
         d['datainfo'] = ['command', [], [dt_tree(aobj.argument), dt_tree(aobj.result)], None]
         dt_objects(aobj.argument, aname + '/dt', objs)
+        if aobj.argument is not None:      # argument checking: through do() on an instance, through the datatype on a class
+            if modobj is not None:
+                d['calls'] = [outcome(aobj.do, modobj, v) for v in ARG_CATALOGUE]
+            else:
+                d['calls'] = [outcome(lambda v: aobj.argument.validate(aobj.argument.import_value(v)), v) for v in ARG_CATALOGUE]
     try:       # the real thing must agree with what was assembled above
         exp = dict(aobj.for_export())
         exp.pop('datainfo', None)
@@ -229,7 +260,7 @@ def dump_owner(owner, is_class):
         from frappy.params import Accessible
         accessibles = {k: v for k, v in owner.__dict__.items() if isinstance(v, Accessible)}
     for aname, aobj in accessibles.items():
-        accs.append([aname, dump_accessible(aobj, objs, aname)])
+        accs.append([aname, dump_accessible(aobj, objs, aname, None if is_class else owner)])
     if is_class:
         pd = getattr(owner, 'propertyDict', None) or {}
         from frappy.properties import UNSET
@@ -329,6 +360,8 @@ def run_op(op, classes, insts):
             obj = insts[op['inst']]
             if op['kind'] == 'setprop':
                 obj.accessibles[op['par']].setProperty(op['key'], op['val'])
+            elif op['kind'] == 'write':
+                getattr(obj, 'write_' + op['par'])(op['val'])
             elif op['kind'] == 'enum':
                 from frappy.mixins import HasControlledBy
                 # the body of HasControlledBy.register_input, for any enum parameter of the instance
@@ -358,6 +391,34 @@ class _Proxy:
         self.__dict__['_obj'] = obj
         self.__dict__['parameters'] = {'controlled_by': obj.parameters[par]}
         self.__dict__['inputCallbacks'] = {}
+
+
+class CaseTimeout(BaseException):
+    """a case ran into its time limit (BaseException: must pass the `except Exception` that records operation outcomes)"""
+
+
+class time_limit:
+    """per-case wall clock limit (SIGALRM); a hang of the code under test becomes a harness problem (exit 2), never a verdict"""
+
+    def __init__(self, seconds):
+        self.seconds = seconds
+
+    def _fire(self, *args):
+        raise CaseTimeout(f'case exceeded {self.seconds} s')
+
+    def __enter__(self):
+        import signal
+        self.old = signal.signal(signal.SIGALRM, self._fire)
+        signal.alarm(self.seconds)
+
+    def __exit__(self, *exc):
+        import signal
+        signal.alarm(0)
+        signal.signal(signal.SIGALRM, self.old)
+        return False
+
+
+CASE_LIMIT = int(os.environ.get('VERIF_CASE_TIMEOUT') or 60)
 
 
 class Exec:
@@ -498,30 +559,48 @@ def gen_bare(rng, kind):
     return rng.choice([0, 'x'])
 
 
-def gen_decl(rng, known_kind, is_mixin):
-    """known_kind: None (new name), 'cmd', or a datatype kind of the inherited parameter"""
+def is_cmd(kind):
+    return isinstance(kind, str) and kind.startswith('cmd')
+
+
+def gen_cmd_arg(rng, d):
+    """gives the command declaration `d` an argument: nothing, a simple datatype, or a struct with a method signature"""
     r = rng.random()
-    if known_kind == 'cmd':
-        if r < 0.4:
-            return {'k': 'method'}
+    if r < 0.4:
+        return d
+    if r < 0.65:
+        d['arg'] = gen_dt(rng, rng.choice(['float', 'int', 'string']))
+        return d
+    names = rng.choice([['a', 'b'], ['a', 'b'], ['a', 'b', 'c']])
+    d['arg'] = {'t': 'struct', 'props': {}, 'members': {n: gen_dt(rng, rng.choice(['float', 'int'])) for n in names}}
+    d['sig'] = {'names': names, 'defaults': [n for n in names if rng.random() < 0.5]}
+    return d
+
+
+def gen_decl(rng, known_kind, is_mixin):
+    """known_kind: None (new name), 'cmd' / 'cmd:<struct members>', or a datatype kind of the inherited parameter"""
+    r = rng.random()
+    if is_cmd(known_kind):
+        members = known_kind[4:].split(',') if ':' in known_kind else None
+        if r < 0.45:
+            d = {'k': 'method'}
+            if members:       # a plain method over a command with a struct argument: its defaults decide what is optional
+                names = members if rng.random() < 0.95 else members[:-1] + ['zz']
+                d['sig'] = {'names': names, 'defaults': [n for n in names if rng.random() < 0.5]}
+            return d
         if r < 0.8:
             d = {'k': 'cmd', 'props': {}, 'inherit': rng.random() > 0.25}
             if rng.random() < 0.5:
                 d['desc'] = rng.choice(DESCS)
             if rng.random() < 0.3:
                 d['props']['group'] = rng.choice(['g1', 'g2'])
-            if rng.random() < 0.4:
-                d['arg'] = gen_dt(rng, rng.choice(['float', 'int', 'string']))
-            return d
+            return gen_cmd_arg(rng, d)
         if r < 0.9:
             return {'k': 'none'}
         return {'k': 'value', 'v': 3}
     if known_kind is None and not is_mixin:
         if r < 0.12:
-            d = {'k': 'cmd', 'desc': rng.choice(DESCS), 'props': {}, 'inherit': True}
-            if rng.random() < 0.4:
-                d['arg'] = gen_dt(rng, rng.choice(['float', 'int', 'string']))
-            return d
+            return gen_cmd_arg(rng, {'k': 'cmd', 'desc': rng.choice(DESCS), 'props': {}, 'inherit': True})
         dt = gen_dt(rng)
         return {'k': 'param', 'desc': rng.choice(DESCS), 'dt': dt, 'props': gen_pprops(rng, dt['t']), 'inherit': True}
     # override of a known parameter (or a mixin declaring a parameter somebody else is expected to have)
@@ -561,8 +640,11 @@ def gen_decl(rng, known_kind, is_mixin):
 def decl_kind(decl, prev):
     if decl['k'] == 'param':
         return decl['dt']['t'] if decl.get('dt') else prev
-    if decl['k'] in ('cmd', 'method'):
-        return 'cmd' if (decl['k'] == 'cmd' or prev == 'cmd') else prev
+    if decl['k'] == 'cmd':
+        arg = decl.get('arg')
+        return 'cmd:' + ','.join(arg['members']) if arg and arg['t'] == 'struct' else 'cmd'
+    if decl['k'] == 'method':
+        return prev
     if decl['k'] == 'none':
         return None
     return prev
@@ -618,15 +700,15 @@ def gen_program(rng, big):
                 elif is_mixin:
                     aname = rng.choice(PNAMES[:7])       # a mixin never declares a parameter under a command's name
                 else:
-                    aname = rng.choice(PNAMES[:5] + CNAMES[:1])
+                    aname = rng.choice(PNAMES[:5] + CNAMES[:1] + ['go'])
                 if any(a == aname for a, _ in decls):
                     continue
                 prev = est.get(aname)
                 if aname in CNAMES and prev is None and not is_mixin:
-                    d = {'k': 'cmd', 'desc': rng.choice(DESCS), 'props': {}, 'inherit': True}
+                    d = gen_cmd_arg(rng, {'k': 'cmd', 'desc': rng.choice(DESCS), 'props': {}, 'inherit': True})
                 else:
                     d = gen_decl(rng, prev, is_mixin)
-                    if d['k'] == 'cmd' and aname not in CNAMES and prev != 'cmd':
+                    if d['k'] == 'cmd' and aname not in CNAMES and not is_cmd(prev):
                         # parameter names and command names are kept apart (a Parameter merged with a Command of
                         # the same name from another base is outside the model)
                         dt = gen_dt(rng)
@@ -640,8 +722,10 @@ def gen_program(rng, big):
                 (mixins if is_mixin else modules).append(name)
         elif r < 0.8 or not insts:
             cls = rng.choice(modules)
+            if insts and rng.random() < 0.4:     # a sibling of an existing instance (same class, other configuration)
+                cls = insts[rng.choice(sorted(insts))]
             name = 'i%d' % (len(ex.steps) + 1)
-            est = {k: v for k, v in kinds[cls].items() if v not in (None, 'cmd')}
+            est = {k: v for k, v in kinds[cls].items() if v is not None and not is_cmd(v)}
             cfg = {}
             for _ in range(rng.choice([0, 0, 1, 1, 2])):
                 if not est:
@@ -668,11 +752,13 @@ def gen_program(rng, big):
                 insts[name] = cls
         else:
             iname = rng.choice(sorted(insts))
-            est = {k: v for k, v in kinds[insts[iname]].items() if v not in (None, 'cmd')}
+            est = {k: v for k, v in kinds[insts[iname]].items() if v is not None and not is_cmd(v)}
             if not est:
                 continue
             par = rng.choice(sorted(est))
-            if est[par] == 'enum' and rng.random() < 0.8:
+            if rng.random() < 0.35:
+                op = {'op': 'mutate', 'inst': iname, 'par': par, 'kind': 'write', 'val': rng.choice([1, 3, 5, 8, 20, 60, 'a'])}
+            elif est[par] == 'enum' and rng.random() < 0.8:
                 op = {'op': 'mutate', 'inst': iname, 'par': par, 'kind': 'enum', 'member': rng.choice(['m1', 'm2', 'x'])}
             else:
                 props = gen_dtprops(rng, est[par])
@@ -700,16 +786,30 @@ def wire_tree(spec):
     return None if spec is None else dt_tree(mk_dt(spec))
 
 
+def _argument_of(decl):
+    try:
+        return mk_decl(decl).argument
+    except Exception:       # the declaration itself is refused (the class operation failed and is skipped by the model)
+        return None
+
+
 def wire_decl(decl):
     k = decl['k']
     if k == 'param':
         return {'k': 'param', 'desc': None if decl.get('desc') is None else jtext(decl['desc']), 'dt': wire_tree(decl.get('dt')),
                 'props': wire_props(decl.get('props') or {}), 'inherit': bool(decl.get('inherit', True))}
     if k == 'cmd':
-        return {'k': 'cmd', 'desc': None if decl.get('desc') is None else jtext(decl['desc']), 'arg': wire_tree(decl.get('arg')),
-                'props': wire_props(decl.get('props') or {})}
+        # the argument as it is after decoration: `Command.__call__` sets the optional members of a struct from the signature
+        return {'k': 'cmd', 'desc': None if decl.get('desc') is None else jtext(decl['desc']),
+                'arg': dt_tree(_argument_of(decl)), 'props': wire_props(decl.get('props') or {})}
     if k == 'value':
         return {'k': 'value', 'v': jtext(canon(decl['v']))}
+    if k == 'method':
+        sig = decl.get('sig')
+        opt = None
+        if sig and set(sig['defaults']) != set(sig['names']):
+            opt = jtext([n for n in sig['names'] if n in sig['defaults']])
+        return {'k': 'method', 'optional': opt}
     return {'k': k}
 
 
@@ -721,6 +821,8 @@ def wire_op(op, outcome, mro):
     if op['op'] == 'inst':
         cfg = [[a, wire_props(c)] for a, c in op['cfg'].items() if isinstance(c, dict)]
         return {'op': 'inst', 'ok': ok, 'name': op['name'], 'cls': op['cls'], 'cfg': cfg}
+    if op['kind'] == 'write':      # a write changes the value only: not an operation of the model
+        return {'op': 'setprop', 'ok': False, 'inst': op['inst'], 'par': op['par'], 'key': 'value', 'val': jtext(canon(op['val']))}
     if op['kind'] == 'setprop':
         return {'op': 'setprop', 'ok': ok, 'inst': op['inst'], 'par': op['par'], 'key': op['key'], 'val': jtext(canon(op['val']))}
     return {'op': 'enum', 'ok': ok, 'inst': op['inst'], 'par': op['par'], 'member': op['member']}
@@ -777,11 +879,13 @@ def text_dumps(dumps):
     return {o: jtext(d) for o, d in dumps.items()}
 
 
-def val_pairs(dumps, acc):
-    for d in dumps.values():
-        for _, x in d.get('acc', []):
+def val_pairs(dumps, acc, wacc=None):
+    for owner, d in dumps.items():
+        for a, x in d.get('acc', []):
             if x.get('catalogue') is not None:
                 acc.add((jtext(x['datainfo']), jtext(x['catalogue'])))
+            if wacc is not None and x.get('writes') is not None:
+                wacc[(jtext(x['validates']), jtext(x['writes']))] = owner + ':' + a
 
 
 # ----------------------------------------------------------------------------------------
@@ -825,16 +929,17 @@ def at_creation(steps):
 
 
 def requests_for(program, init, steps, second=None):
-    pairs = set()
+    pairs, wpairs = set(), {}
     val_pairs(init['dumps'], pairs)
     for st in steps:
-        val_pairs(st['after'], pairs)
+        val_pairs(st['after'], pairs, wpairs)
     reqs = [
         {'p': 'C09', 'k': 'run', 'prelude': prelude_ops(),
          'ops': [wire_op(st['op'], st['outcome'], st.get('mro')) for st in steps]},
         {'p': 'C09', 'k': 'judge_run', 'init': text_dumps(init['dumps']),
          'steps': [{'target': st['target'] if st['outcome'] == 'ok' else None, 'after': text_dumps(st['after'])} for st in steps]},
         {'p': 'C09', 'k': 'judge_val', 'pairs': sorted(pairs)},
+        {'p': 'C09', 'k': 'judge_write', 'pairs': sorted(wpairs)},
     ]
     first = at_creation(steps)
     laters = []
@@ -864,8 +969,8 @@ def first_diff(model, impl):
 def evaluate(ctx, program, init, steps, second, answers, laters):
     """-> (disagreement or None, [violations])"""
     it = iter(answers)
-    model, jrun, jval = next(it), next(it), next(it)
-    for a in (model, jrun, jval):
+    model, jrun, jval, jwrite = next(it), next(it), next(it), next(it)
+    for a in (model, jrun, jval, jwrite):
         if 'driver_error' in a:
             raise RuntimeError(f'driver error: {a}')
     viols = []
@@ -902,6 +1007,11 @@ def evaluate(ctx, program, init, steps, second, answers, laters):
                 viols.append({'sig': 'C09:mutable-property-value-shared-with-instance', 'what': f'a mutable property value object is '
                               f'shared between owners: {g}', 'case': program})
                 break
+    if not jwrite['ok']:
+        bad = sorted({o + ':' + a for st in steps for o, d in st['after'].items() for a, x in d.get('acc', [])
+                      if x.get('writes') is not None and x['writes'] != x['validates']})
+        viols.append({'sig': 'C09:write-ignores-own-datatype', 'what': f'write_<p>(v) through the wrapper does not follow the '
+                      f'datatype of the instance written to: {bad[:4]}', 'case': program, 'detail': {'params': bad}})
     if not jval['ok']:
         viols.append({'sig': 'C09:validation-not-a-function-of-datainfo', 'what': 'two datatype objects with equal datainfo '
                       'give different outcomes on the boundary catalogue', 'case': program})
@@ -921,10 +1031,14 @@ def evaluate(ctx, program, init, steps, second, answers, laters):
 
 def run_case(ctx, program, rng, with_order=True):
     """re-runs a recorded program (corpus, replay, shrinking)"""
-    init, steps = impl_run(program)
-    second = None
-    if with_order:
-        second = impl_run(program.get('second') or reorder(rng, program))[1]
+    try:
+        with time_limit(CASE_LIMIT):
+            init, steps = impl_run(program)
+            second = None
+            if with_order:
+                second = impl_run(program.get('second') or reorder(rng, program))[1]
+    except CaseTimeout as e:
+        raise RuntimeError(str(e)) from None
     reqs, laters = requests_for(program, init, steps, second)
     answers = ctx.driver.batch(reqs)
     return evaluate(ctx, program, init, steps, second, answers, laters)
@@ -984,14 +1098,17 @@ def run(ctx):
         batch_meta.clear()
 
     for k in range(len(cases) + n):
-        if k < len(cases):
-            program = cases[k][1]
-            init, steps = impl_run(program)
-        else:
-            program, init, steps = None, None, None
-            ex_rng = random.Random(rng.random())
-            program, init, steps = gen_program(ex_rng, big)
-        second = impl_run(program.get('second') or reorder(random.Random(rng.random()), program))[1]
+        try:
+            with time_limit(CASE_LIMIT):
+                if k < len(cases):
+                    program = cases[k][1]
+                    init, steps = impl_run(program)
+                else:
+                    ex_rng = random.Random(rng.random())
+                    program, init, steps = gen_program(ex_rng, big)
+                second = impl_run(program.get('second') or reorder(random.Random(rng.random()), program))[1]
+        except CaseTimeout as e:
+            raise RuntimeError(f'{e} (case {k}); harness problem, not a verdict') from None
         reqs, laters = requests_for(program, init, steps, second)
         batch_reqs.append(reqs)
         batch_meta.append((program, init, steps, second, laters))
@@ -1022,7 +1139,12 @@ def run(ctx):
 def replay(ctx, payload):
     import random
     program = payload['case']
-    init, steps = impl_run(program)
+    try:
+        with time_limit(CASE_LIMIT):
+            init, steps = impl_run(program)
+    except CaseTimeout as e:
+        print('harness problem:', e)
+        return 2
     for i, st in enumerate(steps):
         print(i, json.dumps(st['op']), '->', st['outcome'], st.get('mro') or '')
     dis, viols = run_case(ctx, program, random.Random(1))
